@@ -35,7 +35,7 @@ ObsFailed(e) ==
     \cup (IF e.root = RootOf(P, e.p) THEN {} ELSE {"RootDataset"})
     \cup (IF e.wrappers = WrappersOf(P, e.p) THEN {} ELSE {"WrapperList"})
     \cup (IF e.lookup THEN {} ELSE {"WrapperLookup"})
-    \cup (IF e.attr = RootOf(P, e.p) THEN {} ELSE {"AttributeDelegation"})
+    \cup (IF e.attr = RootOf(P, e.p) /\ e.attrf THEN {} ELSE {"AttributeDelegation"})
     \cup (IF e.shape = RootOf(P, e.p) THEN {} ELSE {"ShapeDelegation"})
     \cup (IF SeqToSet(e.disposed) = RootsOf(P, e.p) THEN {} ELSE {"Dispose"})
 
